@@ -618,17 +618,33 @@ func runC01(c *core.Ctx) {
 			return isLenCall(wo.Info(), ce) && allDefsContain(wo, wo.Info().ObjectOf(id), calleeIn(wo, tsm1+".segmentFileNames"))
 		}
 		badID := ""
-		complete := wo.Flow().ExplorePaths(func(k core.VarKey, fct core.Fact) bool {
+		// the branch taken when segments exist: the body of the `if len(segments) > 0` statement. The path is
+		// marked while inside it (the condition's own fact does not survive: the body re-slices `segments`).
+		var segsBody *ast.BlockStmt
+		ast.Inspect(wo.Body, func(nd ast.Node) bool {
+			if ifs, ok := nd.(*ast.IfStmt); ok && segsBody == nil && hasSegs(ifs.Cond) {
+				segsBody = ifs.Body
+			}
+			return true
+		})
+		c.Need(segsBody != nil, "WAL.Open: branch for existing segments")
+		_ = strings.HasPrefix
+		complete := wo.Flow().ExplorePathsMarked(func(k core.VarKey, fct core.Fact) bool {
 			if ce, ok := fct.Def.(*ast.CallExpr); ok && idf(ce) {
 				return true
 			}
-			return k.Root == nil && strings.HasPrefix(k.Path, "cond:") && fct.Def != nil && hasSegs(fct.Def)
+			return false
+		}, func(e *core.Event) string {
+			if p := e.Pos(); e.Node != nil && p >= segsBody.Pos() && p < segsBody.End() {
+				return "segments-exist"
+			}
+			return ""
 		}, func(e *core.Event, st core.State) {
 			if e.Kind != core.EvReturn {
 				return
 			}
 			rf, _ := wo.ReturnErrFact(e)
-			if rf.Nil == core.NonNil || core.CondOutcome(st, hasSegs) != 1 {
+			if rf.Nil == core.NonNil || !core.Marked(st, "segments-exist") {
 				return
 			}
 			for k, fct := range st {
